@@ -30,6 +30,8 @@ fn main() {
         "deflate-trace-generated" => deflate::trace_generated(&args),
         "deflate-replay-hex" => deflate::replay_hex(&args),
         "deflate-info" => deflate::info(&args),
+        "deflate-critical" => deflate::critical_positions(&args),
+        "deflate-dump" => deflate::dump(&args),
         "deflate-edge-replay" => deflate::edge_replay(&args),
         "deflate-pairs" => deflate::pairs_replay(&args),
         "deflate-pack" => deflate::pack(&args),
